@@ -201,6 +201,21 @@ func (fr *Frame) execCall(v ssa.Value, cc *ssa.CallCommon, ins ssa.Instruction) 
 		fr.setResults(v, res, sig)
 		return
 	}
+	// function stored in a struct field with a contract "func (fieldcall) <Type>_<field>(...)": what every function
+	// stored there guarantees (the functions put into the field are verified against the same postconditions)
+	if k := fieldCallKey(cc.Value); k != "" {
+		rest := strings.TrimPrefix(k, "fieldcall:")
+		if i := strings.LastIndex(rest, "."); i > 0 {
+			if j := strings.LastIndex(rest[:i], "."); j > 0 {
+				pkgPath, typ, field := rest[:j], rest[j+1:i], rest[i+1:]
+				if c := vc.sess.specs.Contracts[pkgPath+"::fieldcall."+typ+"_"+field]; c != nil {
+					res := fr.applyContract(c, sig, nil, fr.callArgs(cc), ins, hint)
+					fr.setResults(v, res, sig)
+					return
+				}
+			}
+		}
+	}
 	// named function type with a functype contract
 	if n, ok := types.Unalias(cc.Value.Type()).(*types.Named); ok && n.Obj().Pkg() != nil {
 		if c := vc.sess.specs.Contracts[n.Obj().Pkg().Path()+"::functype."+n.Obj().Name()]; c != nil {
@@ -1005,6 +1020,8 @@ func (fr *Frame) callModifies(cc *ssa.CallCommon, heaps map[string]string) bool 
 	} else if ci := fr.closureOf(cc.Value); ci != nil {
 		callee = ci.fn
 		c = vc.sess.contractFor(callee)
+	} else if c2 := fr.dynContract(cc); c2 != nil {
+		c = c2
 	}
 	if c != nil && !(c.Inline && callee != nil && callee.Blocks != nil) {
 		if c.ModAll {
@@ -1149,8 +1166,32 @@ func (fr *Frame) pureAxioms(c *Contract, name string, sig *types.Signature, recv
 			// solver's instantiation loop; it is assumed for each call in the code instead (applyContract)
 			continue
 		}
+		if len(binders) == 0 {
+			te.pre.Add(fmt.Sprintf("ax:%s#e%d", name, k), fmt.Sprintf("(assert %s)", t.S))
+			continue
+		}
 		te.pre.Add(fmt.Sprintf("ax:%s#e%d", name, k), fmt.Sprintf("(assert (forall (%s) (! %s :pattern (%s))))", strings.Join(binders, " "), t.S, ap.S))
 	}
+}
+
+// dynContract finds the contract assumed for a dynamic call: of the struct field the function is loaded from, or of its
+// named function type.
+func (fr *Frame) dynContract(cc *ssa.CallCommon) *Contract {
+	specs := fr.vc.sess.specs
+	if k := fieldCallKey(cc.Value); k != "" {
+		rest := strings.TrimPrefix(k, "fieldcall:")
+		if i := strings.LastIndex(rest, "."); i > 0 {
+			if j := strings.LastIndex(rest[:i], "."); j > 0 {
+				if c := specs.Contracts[rest[:j]+"::fieldcall."+rest[j+1:i]+"_"+rest[i+1:]]; c != nil {
+					return c
+				}
+			}
+		}
+	}
+	if n, ok := types.Unalias(cc.Value.Type()).(*types.Named); ok && n.Obj().Pkg() != nil {
+		return specs.Contracts[n.Obj().Pkg().Path()+"::functype."+n.Obj().Name()]
+	}
+	return nil
 }
 
 // fieldCallKey names a dynamic call of a function stored in a struct field: "fieldcall:<pkg>.<Type>.<field>".
